@@ -6,11 +6,13 @@ import bolt "go.etcd.io/bbolt"
 
 // Every write transaction of persistence.go (db.Update / db.Batch / tx.Commit) is routed through these
 // wrappers by a build-time source rewrite declared in /verif/lib/props/C14.py. With no hook installed they
-// are the identity. The C14 crash driver installs VerifAfterCommit in its worker processes to count committed
+// are the identity. The receivers are taken by method set, so a source that wraps *bolt.DB in its own handle type still builds. The C14 crash driver installs VerifAfterCommit in its worker processes to count committed
 // transactions and to die (SIGKILL to itself) immediately after the k-th one.
 var VerifAfterCommit func(err error)
 
-func verifUpdate(db *bolt.DB, fn func(tx *bolt.Tx) error) error {
+func verifUpdate(db interface {
+	Update(func(tx *bolt.Tx) error) error
+}, fn func(tx *bolt.Tx) error) error {
 	err := db.Update(fn)
 	if h := VerifAfterCommit; h != nil {
 		h(err)
@@ -18,7 +20,9 @@ func verifUpdate(db *bolt.DB, fn func(tx *bolt.Tx) error) error {
 	return err
 }
 
-func verifBatch(db *bolt.DB, fn func(tx *bolt.Tx) error) error {
+func verifBatch(db interface {
+	Batch(func(tx *bolt.Tx) error) error
+}, fn func(tx *bolt.Tx) error) error {
 	err := db.Batch(fn)
 	if h := VerifAfterCommit; h != nil {
 		h(err)
@@ -26,7 +30,7 @@ func verifBatch(db *bolt.DB, fn func(tx *bolt.Tx) error) error {
 	return err
 }
 
-func verifCommit(tx *bolt.Tx) error {
+func verifCommit(tx interface{ Commit() error }) error {
 	err := tx.Commit()
 	if h := VerifAfterCommit; h != nil {
 		h(err)
